@@ -75,6 +75,14 @@ Theorem C13_oracle_on_every_history :
 Proof. exact history_own_and_others. Qed.
 Print Assumptions C13_oracle_on_every_history.
 
+(* "is reported FAILED": on every history, every own task is handed to
+   advance(publish=True) as FAILED, and whatever is handed to advance() is a
+   task of the table with exactly that state (oracle clause `reported`). *)
+Theorem C13_reported_on_every_history :
+  forall (ops : list op) (m : tmgr), nth 2 (ok_history m ops (run m ops)) false = true.
+Proof. exact history_reported. Qed.
+Print Assumptions C13_reported_on_every_history.
+
 (* non-vacuity: three pilots, five tasks; pilot 2 fails, later pilot 1 is
    canceled; task 4 (CANCELED, pilot 2) and task 5 (unbound) are untouched,
    task 3 (pilot 3) survives both *)
